@@ -248,7 +248,9 @@ META = {
     "text": ("All short words of navigation/search commands plus seeded longer ones, over small histories (empty, one entry, duplicates, multi-line, "
              "prefixes) and in-progress buffers, are run on the real library; HistoryTrace checks the exact entry shown after every walk, the "
              "restoration of the in-progress text, that search results are stored entries matching the search text, that sources never "
-             "change, and that nothing fails at either end."),
+             "change, and that nothing fails at either end. With several bound sources the trace specification follows which one is the active "
+             "one (source-cycling commands, an incremental search asked for again, sources deleted / added by the application between calls; "
+             "HistSources model) and judges walks against that source."),
     "note": "Trusted: TLC, harness snapshots/source dumps. Bounded + seeded.",
     "design_ref": "DESIGN.md §5 C09",
 }
